@@ -391,6 +391,74 @@ def big_kernel_cases(rng, tier):
                 yield Case("m.pow", [hx(m), hx(full), hx(rng.choice([3, 5, 6]))])
                 yield Case("m.div", [hx(m), hx(half), hx(coprime_to(rng, 64, m))])
 
+def addsub_buffer_cases(rng, tier):
+    """round 6 — `integer/src/modular/add.rs` of multi-word rings on buffers (add_in_place / dbl_in_place / sub_in_place /
+    sub_in_place_swap / negate_in_place now run C01's mirrored add_same_len_in_place / sub_same_len_in_place(_swap) word loops
+    in the driver): from the branch conditions `overflow || cmp_same_len(lhs, modulus).is_ge()`, `if overflow` (borrow),
+    `raw.iter().all(|w| *w == 0)`, `shl_in_place(raw, 1) > 0` — moduli of 3, 4, 5, 8, 17, 33 words with shift 0 (top bit set: a
+    carry out of the top word is possible) and shift 1..63; sums a + b = m - 1, m, m + 1, >= 2^(64 n) (carry), 2m - 2; carry /
+    borrow chains through j = 1..n words (2^(64 j) - 1 plus 1; 2^(64 j) minus 1; 0 - 1); differences 0, +-1; doubling of m/2,
+    (m +- 1)/2, of values with the top bit of every word set, of m - 1; negation of 0, 1, m - 1, of residues whose low 1..n-1 words
+    are zero; negative operands of reduce (IntoRing for IBig negates on the buffer); and for the conditional subtraction of mul_/sqr_normalized's
+    short product (`cmp_same_len(product, modulus).is_ge()`): m = p*q, p*q +- 1, p^2, p^2 +- 1 with operands p, q (product exactly / just below / just above m);
+    inverses of 1, 2, m - 1, m - 2, (m +- 1)/2 and of 1-, 2-, 3-word residues (inv_large's shl_in_place / is_valid / negate_in_place tail)."""
+    reps = 2 if tier == "quick" else 40
+    for _ in range(reps):
+        for n in (3, 4, 5, 8, 17, 33):
+            lz = rng.choice([0, 0, 0, 1, 7, 32, 63])
+            bits = n * 64 - lz
+            c = rng.random()
+            if c < 0.3:
+                m = (1 << bits) - rng.choice([1, 2, 3, 59, (1 << 64) + 1])
+            elif c < 0.5:
+                m = (1 << (bits - 1)) + rng.choice([0, 1, 2, 12345, 1 << 64])
+            else:
+                m = rng.getrandbits(bits) | (1 << (bits - 1))
+            j = rng.randrange(1, n)
+            a = rng.randrange(1, m)
+            ones = ((1 << (64 * j)) - 1) % m
+            alt = sum(1 << (64 * i + 63) for i in range(n)) % m          # top bit of every word
+            pairs = [(a, m - a - 1), (a, m - a), (a, m - a + 1), (m - 1, m - 1), (m - 1, 1), (m - 1, m - rng.getrandbits(60) - 1),
+                     (m - rng.getrandbits(40) - 1, m - rng.getrandbits(40) - 1),                   # >= 2^(64 n) when lz == 0
+                     (ones, 1), (ones, ones), (1 << (64 * j), m - 1), (alt, alt), (a, 0), (0, a), (0, 0)]
+            for x, y in pairs:
+                yield Case("m.add", [hx(m), hx(x), hx(y)])
+            b = rng.randrange(1, m)
+            for x, y in [(a, a), (a, a + 1 if a + 1 < m else a), (a, a - 1), (0, 1), (0, m - 1), (1 << (64 * j), 1), (ones, ones + 1),
+                         (1, 1 << (64 * j)), (a, b), (b, a), (m - 1, 0), (0, 0), (alt, m - 1)]:
+                yield Case("m.sub", [hx(m), hx(x), hx(y)])
+            for x in [m // 2, (m + 1) // 2, (m - 1) // 2, m - 1, alt, ones, a, 0, 1, (1 << (bits - 1)) % m, ((1 << (bits - 1)) - 1) % m,
+                      m - rng.getrandbits(30) - 1]:
+                yield Case("m.dbl", [hx(m), hx(x)])
+            for x in [0, 1, m - 1, m, (1 << (64 * j)) % m, ((rng.getrandbits(64) | 1) << (64 * j)) % m, a, -a, ones, -(1 << (64 * j)), 2 * m]:
+                yield Case("m.neg", [hx(m), hx(x)])
+            for x in [-1, -a, -(m - 1), -m, -(m + 1), -(1 << (64 * j)), -((1 << (64 * n)) - 1), -(a + m * rng.getrandbits(70))]:
+                yield Case("m.reduce", [hx(m), hx(x)])
+            yield Case("m.mix", [rng.choice(["add", "sub"]), hx(m), hx(m), hx(a), hx(b)])
+            # inv_large's tail on the buffer (shl_in_place of the cofactor, is_valid, negate_in_place): cofactors 1 and m - 1 (|b| = 1 with either sign),
+            # (m +- 1)/2 (the largest shifted cofactors: top bits of the buffer set when the shift is 0), residues of 1, 2, >= 3 words
+            for x in [1, 2, m - 1, m - 2, (m + 1) // 2, (m - 1) // 2, 3, (1 << 64) + 1, (1 << 128) + 1, a]:
+                yield Case(rng.choice(["m.inv", "m.inv", "r.inv"]), [hx(m), hx(x % m)])
+            yield Case("m.div", [hx(m), hx(b), hx(m - 1)])
+            # mul_normalized / sqr_normalized, short product (na + nb <= n): `cmp_same_len(product, modulus).is_ge()` with the product EXACTLY the
+            # modulus (m = p*q, operands p, q), one below / above it (m = p*q +- 1) — the conditional subtraction on the buffer
+            # (a product equal to the normalised modulus fits the n-word buffer only with shift 0: p, q of exactly h and n - h words with their
+            #  two top bits set, so that p*q has exactly 64 n bits and na + nb = n; the squares live in the 2h-word ring of p^2)
+            pb = (n // 2) * 64
+            qb = n * 64 - pb
+            p_ = rng.getrandbits(pb) | (3 << (pb - 2)) | 1
+            q_ = rng.getrandbits(qb) | (3 << (qb - 2)) | 1
+            for d in (0, 1, -1):
+                m2 = p_ * q_ + d
+                if m2.bit_length() > 128:
+                    yield Case("m.mul", [hx(m2), hx(p_), hx(q_)])
+                    yield Case("r.mul", [hx(m2), hx(p_), hx(q_)])
+                m3 = p_ * p_ + d
+                if m3.bit_length() > 128:
+                    yield Case(rng.choice(["m.sqr", "r.sqr"]), [hx(m3), hx(p_)])
+                    yield Case("m.mul", [hx(m3), hx(p_), hx(p_)])
+                    yield Case("m.pow", [hx(m3), hx(p_), hx(rng.choice([2, 3, 4]))])
+
 def nontrivial(c):
     return c.args and len(c.args[1 if c.op == "m.mix" else 0]) > 16     # modulus above one word
 
@@ -406,6 +474,8 @@ def generate(rng, tier):
     for c in prim_boundary_cases(rng, tier):
         yield c
     for c in big_kernel_cases(rng, tier):
+        yield c
+    for c in addsub_buffer_cases(rng, tier):
         yield c
     n = 2200 if tier == "quick" else 60000
     for i in range(n):
@@ -477,6 +547,7 @@ def generate(rng, tier):
 
 USES_GEN = True          # lean/Dashu/Gen/Modular.lean: decision logic of integer/src/modular/{mul,pow,div}.rs (vlib/extract.py gen_modular);
                          # lean/Dashu/Gen/ModularBuf.lean (round 5): buffer-level tests of ConstLargeDivisor::rem_large / mul_normalized / sqr_normalized (gen_modular_buf)
+                         # lean/Dashu/Gen/ModularAdd.lean (round 6): tests of add_in_place / dbl_in_place / sub_in_place(_swap) / negate_in_place (gen_modular_add)
 REFINED = ["ConstDivisor::new (shift)", "ConstSingleDivisor::rem_word/rem_dword/rem_large", "ConstDoubleDivisor::rem_dword/rem_large",
            "ConstLargeDivisor::rem_repr/rem_large", "IntoRing for UBig/IBig", "Reduced::residue/modulus",
            "Neg/Add/Sub/Mul/Div for Reduced", "Reduced::dbl/sqr/inv/pow", "mul_normalized/sqr_normalized",
@@ -517,10 +588,29 @@ REFINED = ["ConstDivisor::new (shift)", "ConstSingleDivisor::rem_word/rem_dword/
            "round 5, Tie A (Gen/ModularBuf.lean regenerated from integer/src/div_const.rs and integer/src/modular/mul.rs by the new additive extract target "
            "gen_modular_buf): the `words.len() >= modulus.len()` test of ConstLargeDivisor::rem_large, the product-buffer length `n.max(na + nb)` / `n.max(na * 2)`, "
            "the early return `na | nb == 0` / `na == 0` and the one-word shortcut test of mul_/sqr_normalized — the buffer mirrors are proved to CALL the "
-           "regenerated definitions (buffer_logic_gen, rem_large_gen, mul_normalized_gen)"]
+           "regenerated definitions (buffer_logic_gen, rem_large_gen, mul_normalized_gen)",
+           "round 6, C13<->C01 link for integer/src/modular/add.rs (Model/NT/ModAddK.lean, executed by the driver for Neg, +, -, &a - b, dbl of multi-word rings and for the "
+           "negation inside IntoRing for IBig): negate_in_place, add_in_place, dbl_in_place, sub_in_place, sub_in_place_swap on the n-word residue buffers through C01's MIRRORED "
+           "add_same_len_in_place / sub_same_len_in_place / sub_same_len_in_place_swap word loops and C02's mirrored shl_in_place(.., 1) / cmp_same_len, with "
+           "debug_assert!(!overflow), debug_assert_eq!(overflow, overflow2), debug_assert!(overflow2) as error values; proved for every word size: on Valid residues no assertion "
+           "fails and the buffers hold the values of hom_add / hom_sub / hom_neg / hom_dbl (add_sub_neg_kernels_all, add_in_place_exact, add_sub_neg_ops_all; contracts of the "
+           "word loops by import of C01's addSameLen_spec / subSameLen_spec). The driver evaluates BOTH subtraction bodies (sub_in_place, sub_in_place_swap) and both doubling "
+           "bodies (dbl_in_place, add_in_place on equal operands), as the harness's call forms do",
+           "round 6, Tie A (Gen/ModularAdd.lean regenerated from integer/src/modular/add.rs by the new additive extract target gen_modular_add): the tests "
+           "`overflow || cmp_same_len(..).is_ge()` of add_in_place / dbl_in_place, `if overflow` of sub_in_place / sub_in_place_swap, `!raw.0.iter().all(|w| *w == 0)` of "
+           "negate_in_place; called word loops, argument order and debug assertions checked as a fixed shape (fails closed) — the buffer mirrors are proved to decide by the "
+           "regenerated definitions (add_logic_gen; under mutants m18/m20/m21 the regenerated text changes and the theorem no longer checks, m19 fails closed); the same for the "
+           "`cmp_same_len(product, modulus).is_ge()` test of mul_/sqr_normalized's short product, whose conditional subtraction now runs C01's mirrored sub_same_len_in_place "
+           "with its debug_assert_zero! on the buffer (mul_normalized_gen; mutants m22/m23)",
+           "round 6, inv_large's buffer plumbing (Model/NT/ModInvLargeB.lean, executed by the driver for inv and / of multi-word rings and Reducer::inv): "
+           "debug_assert_zero!(shr_in_place(modulus)), debug_assert_zero!(shr_in_place(raw)), locate_top_word_plus_one, the cofactor zero-extended in the modulus buffer, "
+           "shl_in_place (carry dropped by the code: proved zero), debug_assert!(inv.is_valid(ring)) as ReducedLarge::is_valid on the buffer (length, cmp_same_len(..).is_lt(), "
+           "low shift bits zero), negate_in_place on the buffer — proved: on Valid residues no assertion fails and the result is that of round 4's mirrored inv_large "
+           "(inv_large_buffers_all, from the range theorems gcdExtSmall_range / lehmerExt_range and C02's shrInPlace_spec / shlInPlace_spec)"]
 FRONTIER = ["large::pow above the driver's work budget (n^2 * bit_len(exp) > 1.5e5 word operations) is executed with the value-level mul_normalized instead of the buffer-level one "
-            "(pow_kernels_all proves both equal on every valid base, so this only bounds the running time of the check); inv_large's shr/shl/negate and the add/sub/neg "
-            "word loops (add_same_len_in_place, sub_same_len_in_place, shl/shr_in_place) appear at their value (+, -, *2^k, /2^k with carry/borrow as comparison) — they are C01/C09 kernels",
+            "(pow_kernels_all proves both equal on every valid base, so this only bounds the running time of the check); the extended-gcd kernels inside inv_large (C12's gcdExtSmall / lehmerExt) "
+            "run on values, not on the buffers gcd_ext_in_place works in (C12 owns their buffer-level mirror, Proofs/NT/LehmerBuf*); Reducer<UBig>'s add/sub/neg are UBig arithmetic of "
+            "reducer.rs (C01's operators) and appear at their value",
             "the `s >= umax::BITS` arm of udouble::shl_u32 and the `self.hi >= rhs` arm of Rem<u128> for udouble are modelled and covered by the theorems "
             "(udoubleRem_spec) but unreachable from invm (quo*t < m*2^128), so Tie B never exercises them",
             "the ptr::eq ring identity is modelled by an instance id (two instances with equal modulus are different rings): a modelling convention, not derivable from source text"]
@@ -547,6 +637,11 @@ RULE = ("moduli from {1, 2^k, odd/even single word, double word with/without nor
         "big_kernel_cases — moduli of 24, 25, 30..34, 66, 193/200 words (thorough: 23..26, 30..34, 48, 65, 66, 100, 192, 193, 200), i.e. on either side of mul THRESHOLD_SIMPLE, sqr MAX_LEN_SIMPLE, "
         "div THRESHOLD_SIMPLE and THRESHOLD_KARATSUBA, x operands of n, n/2, 1, n-1 words through reduce (Knuth D and Burnikel-Ziegler), mul, sqr, pow, div — annotations "
         "`<product arm>.<division arm>` (sq1 / sqr.simple|karatsuba|toom3 / mul11 / mul.simple|karatsuba|toom3 x same|uneven|empty x knuth|bz) all non-zero on the quick tier. "
+        "round 6: addsub_buffer_cases — multi-word moduli of 3, 4, 5, 8, 17, 33 words with shift 0 (a carry out of the top word is possible) and shift 1..63 x sums "
+        "m-1, m, m+1, >= 2^(64n), 2m-2, carry / borrow chains through 1..n words, differences 0, +-1, 0-1, doubling of m/2, (m+-1)/2, top-bit-of-every-word, m-1, negation of "
+        "0, 1, m-1, residues with low words zero, negative operands of reduce — annotations add.large.{lt,ge,eqM,carry}, sub.large.{eq,noborrow,borrow}, "
+        "neg.large.{zero,lowzero,nonzero}, dbl.large.{lt,ge,eqM,carry} all non-zero on the quick tier; products p*q and squares p^2 against the moduli p*q, p*q+-1, p^2, p^2+-1 "
+        "(short product exactly / just below / just above the modulus: the conditional subtraction of mul_/sqr_normalized). "
         "The model driver annotates every case with the branch of the mirrored code it takes (reduce: ring kind x "
         "operand size class x shift x sign; mul/sqr: division / conditional subtraction / none; inv: raw_len arm x gcd class; pow: window length / exponent words; "
         "add/sub: carry / borrow) — histogram under coverage.annotations in the evidence file. Non-trivial := modulus above one word; distinct := distinct (op,args) lines.")
@@ -566,7 +661,8 @@ LEVEL_TEXT = ("Machine-checked Lean 4 theorems over an executable model that mir
               "arithmetic definition the homomorphism theorems are about: the word-level reductions of single- and double-word rings (two-step rem_dword, "
               "fast_rem_by_normalized_word/_dword, PreMulInv*::mul/sqr over the mirrored Moeller-Granlund dividers); the multi-word reductions and products on word buffers "
               "(rem_large, mul_normalized, sqr_normalized, the windowed pow loop) through C01's mirrored multiplication and C02's mirrored Knuth-D / Burnikel-Ziegler division, "
-              "with exactness imported from C01's / C02's theorems (W >= 4); inv_large through C12's mirrored extended-gcd kernels with the range claim |b| < modulus proved; "
+              "with exactness imported from C01's / C02's theorems (W >= 4); the additive operations of multi-word rings (add_in_place, dbl_in_place, sub_in_place(_swap), negate_in_place) "
+              "on buffers through C01's mirrored add/sub word loops with their debug assertions proved never to fail; inv_large through C12's mirrored extended-gcd kernels with the range claim |b| < modulus proved; "
               "num-modular's invm with machine arithmetic (checked / wrapping u64 / u128, udouble::widening_mul, div_rem_2by1) proved overflow-free and exact for every width. "
               "Decision logic of mul/pow/div and of the buffer mirrors is regenerated from source and proved equal to the model's. The model is tied to /repo on every "
               "run by differential execution against ConstDivisor::reduce, all Reduced operator call forms and the num_modular::Reducer impl.")
@@ -581,5 +677,6 @@ THEOREMS = ["Dashu.Props.C13." + t for t in ["new_spec", "reduce_spec", "ops_clo
             "mul_normalized_guard_gen", "choose_pow_window_len_gen", "inv_large_dispatch_gen", "inv_large_gcd_is_one_gen"]] + [
             "Dashu.Props.C13Link." + t for t in ["rem_large_exact", "large_divisor_fields", "reduce_kernels_all", "mul_sqr_kernels_all",
             "widening_mul_exact", "udouble_div_rem_2by1_exact", "prim_mulm_exact", "invm_prim_exact", "inv_div_kernels_all",
-            "buffer_logic_gen", "rem_large_gen", "mul_normalized_gen", "product_low_gen", "pow_kernels_all"]]
+            "buffer_logic_gen", "rem_large_gen", "mul_normalized_gen", "product_low_gen", "pow_kernels_all",
+            "add_sub_neg_kernels_all", "add_in_place_exact", "add_sub_neg_ops_all", "add_logic_gen", "inv_large_buffers_all"]]
 READY = True
